@@ -214,10 +214,20 @@ def shape_of(name, ns, np_, ne):
             "transitionVar": (ne,)}[name]
 
 
-def evaluate(m, name, x, t, ns, np_, ne):
+T_FORMS = ("ode", "jacobian", "grad", "diff_jacobian")
+
+
+def evaluate(m, name, x, t, ns, np_, ne, tform=None):
     """call evaluator `name` and reshape the result to its documented shape
     (a 1 x n or n x 1 result may come back flattened: DESIGN section 8)"""
-    val = getattr(m, name)(x, t)
+    # ode, jacobian, grad and diff_jacobian also exist in a (t, state) form (what scipy.integrate.ode is handed): used for
+    # every other point (decided by the point itself, so that a replay is reproducible)
+    if tform is None:
+        tform = int(round(float(np.sum(x)) * 8 + float(t) * 8)) % 2 == 1
+    if name in T_FORMS and tform:
+        val = getattr(m, name + "_T")(t, x)
+    else:
+        val = getattr(m, name)(x, t)
     arr = np.asarray(val, dtype=float)
     shp = shape_of(name, ns, np_, ne)
     if arr.size != int(np.prod(shp)):
